@@ -46,4 +46,23 @@ Records(hist, i, v) == v \in DOMAIN hist[i] /\ Len(hist[i][v]) > 0
 AllRecorded(hist) == { v \in VarSet : \E i \in 1..Len(hist) : Records(hist, i, v) }
 Requested(hist, sel) == IF sel = <<>> THEN AllRecorded(hist) ELSE { sel[x] : x \in 1..Len(sel) }
 ExpectedColumns(hist, sel, units) == { Label(units, v) : v \in Requested(hist, sel) }
+
+(***************************************************************************)
+(* Powertrain.plot (growth beyond the listed properties; the same          *)
+(* "tables of the recorded history" statement as C18, for the figure):     *)
+(* a grid with one column per selected element (powertrain order) and one  *)
+(* row per kinematic variable plus one row per group (torques, force,      *)
+(* stresses, current, pwm); a cell holds exactly one line per requested    *)
+(* variable its element records, and the line is the recorded series in    *)
+(* the requested unit over the time axis in the requested time unit.       *)
+(***************************************************************************)
+PlotRowSets == << {"angular_position"}, {"angular_speed"}, {"angular_acceleration"}, {"torque", "driving_torque", "load_torque"},
+                  {"tangential_force"}, {"bending_stress", "contact_stress"}, {"electric_current"}, {"pwm"} >>
+PlotRows(req) == LET nonempty(S) == S \cap req # {} IN
+                 [ r \in 1..Len(SelectSeq(PlotRowSets, nonempty)) |-> SelectSeq(PlotRowSets, nonempty)[r] \cap req ]
+PlotLabel(v) == CASE v = "torque" -> "net" [] v = "driving_torque" -> "driving" [] v = "load_torque" -> "load"
+                  [] v = "bending_stress" -> "bending" [] v = "contact_stress" -> "contact" [] OTHER -> ""
+\* without a selection the figure shows every variable some SELECTED element advertises
+PlotRequested(hist, elsel, sel) == IF sel = <<>> THEN { v \in VarSet : \E x \in 1..Len(elsel) : v \in DOMAIN hist[elsel[x]] }
+                                   ELSE { sel[x] : x \in 1..Len(sel) }
 =============================================================================
